@@ -1047,6 +1047,10 @@ func (e *Evaluator) evalRules(rules []*Rule) error {
 		match := true
 		if rule.Pattern != nil {
 			cell, err := e.evalExpr(rule.Pattern)
+			if err == errNext {
+				// next inside a pattern (e.g. in a function it calls)
+				return nil
+			}
 			if err != nil {
 				return err
 			}
@@ -1150,7 +1154,7 @@ func EvalProgram(progSrc string, files []InputFile, rootSelectors []string, stdo
 	// begin rules
 	for _, rule := range ev.beginRules {
 		ev.ruleRoot = NewCell(NewValue(nil))
-		if err := ev.evalStatement(rule.Body); err != nil {
+		if err := ev.evalStatement(rule.Body); err != nil && err != errNext {
 			if err == errExit {
 				return &ev, nil
 			}
@@ -1194,7 +1198,7 @@ func EvalProgram(progSrc string, files []InputFile, rootSelectors []string, stdo
 				// run the begin file rules
 				for _, rule := range ev.beginFileRules {
 					ev.ruleRoot = rootCell
-					if err := ev.evalStatement(rule.Body); err != nil {
+					if err := ev.evalStatement(rule.Body); err != nil && err != errNext {
 						if err == errExit {
 							return &ev, nil
 						}
@@ -1214,7 +1218,7 @@ func EvalProgram(progSrc string, files []InputFile, rootSelectors []string, stdo
 				// run the end file rules
 				for _, rule := range ev.endFileRules {
 					ev.ruleRoot = NewCell(rootVal)
-					if err := ev.evalStatement(rule.Body); err != nil {
+					if err := ev.evalStatement(rule.Body); err != nil && err != errNext {
 						if err == errExit {
 							return &ev, nil
 						}
@@ -1228,7 +1232,7 @@ func EvalProgram(progSrc string, files []InputFile, rootSelectors []string, stdo
 	// end rules
 	for _, rule := range ev.endRules {
 		ev.ruleRoot = NewCell(NewValue(nil))
-		if err := ev.evalStatement(rule.Body); err != nil {
+		if err := ev.evalStatement(rule.Body); err != nil && err != errNext {
 			if err == errExit {
 				return &ev, nil
 			}
